@@ -586,8 +586,9 @@ def _run_transport(shard, ctx, rng, sg, isc, skew):
                         continue
                     ev = mod.log[0]
                     if cmd is not None:
-                        if bytes(ev["cdb"]) != bytes(cmd.cdb):
-                            ctx.fail("C13:%s.transport.%s.cdb_differs" % (c.facade, t), "the binding received another CDB than the returned command holds", wit)
+                        if bytes(ev["cdb"]) != bytes(cmd.cdb) or len(cmd.cdb) != c.length or len(ev["cdb"]) != c.length:
+                            ctx.fail("C13:%s.transport.%s.cdb_differs" % (c.facade, t), "the binding received %s, the returned command holds %s (a %d-byte command)"
+                                     % (bytes(ev["cdb"]).hex(), bytes(cmd.cdb).hex(), c.length), wit)
                         if ev.get("in") is not None and len(cmd.datain) and ev["in"] is not cmd.datain:
                             ctx.fail("C13:%s.transport.%s.datain_not_the_callers" % (c.facade, t), "the binding filled another buffer than cmd.datain", wit)
                         if ev.get("out") is not None and len(cmd.dataout) and ev["out"] is not cmd.dataout:
